@@ -161,4 +161,26 @@ theorem send_creates_account (s s1 : State) (src dst : Addr) (amt : Int) (h : se
     acctExists s1 dst = true :=
   Accts.send_dst_exists h
 
+
+/-! ### fee multipliers -/
+
+/-- The fee an accepted transaction has paid is at least the base fee of its message type times the multiplier the
+parameter store lists for that type - the first entry naming it - or, if none does, times the default multiplier. -/
+theorem accepted_pays_multiplied_fee (s : State) (t : Tx) (simulate : Bool) (h : anteOK s t simulate = true) :
+    t.feeEff ≥ t.msg.baseFee s.p * ((s.p.feeMults.lookup t.msg.typeName).getD s.p.feeDefault) := by
+  have h5 := (anteOK_true h).2.2.2.2.1
+  unfold Msg.requiredFee at h5
+  exact h5
+
+/-- the first entry that names the type counts, whatever follows it and wherever it stands in the list -/
+theorem multiplier_first_match (p : Params) (m : Msg) (pre post : List (String × Int)) (k : Int)
+    (hpre : ∀ e ∈ pre, e.1 ≠ m.typeName) (hp : p.feeMults = pre ++ (m.typeName, k) :: post) :
+    m.requiredFee p = m.baseFee p * k := by
+  unfold Msg.requiredFee
+  rw [hp, lookup_append_first pre post m.typeName k hpre]
+  rfl
+
+/-- a transfer and a burn of DAO funds are one message type: they share the multiplier -/
+example (p : Params) (a b c : Addr) (x y : Int) : (Msg.daoTransfer a b x).typeName = (Msg.daoBurn c y).typeName := rfl
+
 end Posmint.Props.C03
